@@ -30,7 +30,7 @@ CLAIMED = {
             "Not decided: "
                 "numeric block boundaries for particular (n,k), multiset equality of rows. "
                 "Also decided: `fold` removes no block from the lists it cuts records and targets into (truncate / pop / drain on them is a violation: with n mod k > n / k the rows spread over more than k + 1 blocks). "
-                "A validation part is never the rest of a `split_at(Axis(0), n / k)` (a two-fold shortcut that hands out both halves gives the left-over rows to a validation set).",
+                "A validation part is never the rest of a `split_at(Axis(0), n / k)` (a two-fold shortcut that hands out both halves gives the left-over rows to a validation set). No call of a workspace function in the crates of this property passes two like-typed arguments that are named after each other's parameter (names resolved through lets to the field or accessor they were read from).",
         "design_ref": "DESIGN.md section 4, C01",
         "note": "Trusted: rustc resolution/typeck, the fact dump, documented semantics of slice::split_at_mut/swap_with_slice and ndarray selection methods.",
         "technique": _T + ": pairing/dominance of buffer permutations, sibling agreement under value numbering, dataflow of the fold size",
@@ -50,7 +50,7 @@ CLAIMED["C02"] = {
             "CountedTargets values are built by counting the targets they wrap (CountedTargets::new, or a count incremented in the same loop that collects them, in maps that start empty); a cache taken from another container's counts is a violation, one assembled by hand is left undecided. "
             "Not decided: multiset equality of rows as values. "
             "Also decided: Iterator impls of the dataset iterators that override `nth` advance relative to the current position (a position field that `next` increments is not overwritten with a value that forgets it; any other overriding method that does not go through self.next() is left undecided); a CountedTargets cache filled from label_frequencies() - per-label sums of the sample weights - counts as taken from a foreign source. "
-            "No count or index of the dataset code is narrowed to an integer type of 32 bits or fewer (or kept in a u8 / u16 counter) unless its source is bounded in the expression itself. The weights of a dataset are cut at a sample count, never at an element count (`dim.size()`, an integer product with the number of targets or features; tuple lets and local helpers followed). A binary search is not run on a sequence that the same loop appends to without sorting it again.",
+            "No count or index of the dataset code is narrowed to an integer type of 32 bits or fewer (or kept in a u8 / u16 counter) unless its source is bounded in the expression itself. The weights of a dataset are cut at a sample count, never at an element count (`dim.size()`, an integer product with the number of targets or features; tuple lets and local helpers followed). A binary search is not run on a sequence that the same loop appends to without sorting it again. No container of the input is indexed with an enumerate() index taken after a filter / skip / step_by / rev of the sample sequence; nothing is scattered with the indices the records are gathered with. No call of a workspace function in the crates of this property passes two like-typed arguments that are named after each other's parameter (names resolved through lets to the field or accessor they were read from).",
     "design_ref": "DESIGN.md section 4, C02",
     "note": "Trusted: rustc resolution/typeck, the fact dump, documented semantics of ndarray selection methods and Vec::split_off.",
     "technique": _T + ": provenance trace of output containers with selector extraction and sibling agreement of selectors",
@@ -67,7 +67,7 @@ CLAIMED["C03"] = {
             "decided: equality of floating-point roundings between batch and single-row evaluation. "
             "Also decided: no ordering written out in the linfa crate (the `Pr` the composed models select by) compares floating-point values through `to_bits()`; MultiTargetModel reshapes the collected predictions as (number of models, number of rows) - read structurally, through accessor methods - and transposes. "
             "The loop over the one-vs-all members of MultiClassModel has no written-out `break` / `return` (every member is consulted; a batch-level confidence test would make a row's label depend on the other rows). "
-            "A buffer filled in the order of an argsort is not read back through that order's *values* (the permutation applied twice); blocked loops place block b at b times the nominal block length.",
+            "A buffer filled in the order of an argsort is not read back through that order's *values* (the permutation applied twice); blocked loops place block b at b times the nominal block length. No call of a workspace function in the crates of this property passes two like-typed arguments that are named after each other's parameter (names resolved through lets to the field or accessor they were read from).",
     "design_ref": "DESIGN.md section 4, C03",
     "note": "Trusted: rustc resolution/typeck, the fact dump; ndarray's elementwise ops, dot and row iterators are row-local.",
     "technique": _T + ": batch-axis abstract interpretation, dominance of shape checks over output writes, type-closure scan for interior mutability",
@@ -89,7 +89,7 @@ CLAIMED["C04"] = {
             "Not decided: behaviour of training on valid parameters. "
             "Also decided: a float `is_positive()` is the sign-bit test (true for +0.0) and is modelled as `>= 0`; a rejection that only applies under a test of another, non-numeric parameter (`algorithm == Nipals && max_iter == 0`) rejects nothing of the documented range; hand-written `From<A> for B` whose target enum has a variant made to hold an `A` builds that variant (R-C04-from); validation helpers are read as part of the check also when they are handed the whole set under another name, take tuple parameters, end in a tail call of the next helper, or guard a match arm. "
             "Guards that combine parameters arithmetically (`penalty * l1_ratio < 0`) are evaluated as linear conditions on the parameter under analysis with the others at a witness value, and again with every boundary value of the others: the documented range holds for all of them. A verdict bound to a local (`let is_valid = match ..`) is read as its region. "
-            "A test on `obj.method(param)` (a converted copy: a squared tolerance that underflows) is a test on the copy, reported like `to_f32()`; one-parameter predicates of the same crate are read through; `to_u32().map_or(false, |c| ..)` is a test on the narrowed value. A validation helper that branches on the variant of another, non-numeric parameter (`match self.algorithm { Nipals => <tests>, Svd => Ok(()) }`, unit-variant patterns) rejects only what every mode rejects: the documented range of a parameter holds whatever the other parameters are, so a test that runs in one mode only rejects nothing of the range.",
+            "A test on `obj.method(param)` (a converted copy: a squared tolerance that underflows) is a test on the copy, reported like `to_f32()`; one-parameter predicates of the same crate are read through; `to_u32().map_or(false, |c| ..)` is a test on the narrowed value. A validation helper that branches on the variant of another, non-numeric parameter (`match self.algorithm { Nipals => <tests>, Svd => Ok(()) }`, unit-variant patterns) rejects only what every mode rejects: the documented range of a parameter holds whatever the other parameters are, so a test that runs in one mode only rejects nothing of the range. No call of a workspace function in the crates of this property passes two like-typed arguments that are named after each other's parameter (names resolved through lets to the field or accessor they were read from).",
     "design_ref": "DESIGN.md section 4, C04",
     "note": "Trusted: rustc resolution/typeck, the fact dump, the documented range table frozen in rules/c04.py (one source reference per row). NaN/infinite parameter values are outside the claim, as in the property.",
     "technique": _T + ": guard extraction + interval algebra vs documented table, dominance of the check over entry points, who-may-construct on checked types",
@@ -110,7 +110,7 @@ CLAIMED["C07"] = {
             "Not decided: geometric sufficiency of pruning bounds, k-NN ties. "
             "Also decided: no allocation in linfa-nn is sized by a caller-supplied count alone (`with_capacity(k)` aborts for the k > n the property speaks about); a `from_batch` written out on CommonNearestNeighbour is a second dispatcher and is held to the same arm test; an impl of Distance that overrides one of rdistance / dist_to_rdist / rdist_to_dist overrides all three. "
             "A power of a coordinate difference in a Distance impl is taken of its absolute value or with a literal even exponent; the linear scan's admission through rdist_to_dist(..) < range counts as a plain-distance admission; the k-d tree's post-filter carries no additive slack. "
-            "No shortcut replaces a computed distance on the identity of two views' addresses alone (a row and a column of one matrix start at the same element). In the ball-tree builder every part of a partition of the points reaches a node (a leaf holds all parts, a branch hands each part to a recursive build); no value read off the top of a heap before a loop is used inside that loop after the loop pushed to / popped from that heap.",
+            "No shortcut replaces a computed distance on the identity of two views' addresses alone (a row and a column of one matrix start at the same element). In the ball-tree builder every part of a partition of the points reaches a node (a leaf holds all parts, a branch hands each part to a recursive build); no value read off the top of a heap before a loop is used inside that loop after the loop pushed to / popped from that heap. The admission test of the ball tree's range query is read in whatever helper the public within_range hands the radius to. No call of a workspace function in the crates of this property passes two like-typed arguments that are named after each other's parameter (names resolved through lets to the field or accessor they were read from).",
     "design_ref": "DESIGN.md section 4, C07",
     "note": "Trusted: rustc resolution/typeck, the fact dump (also of the locked kdtree dependency), consistency of each metric's four Distance methods.",
     "technique": _T + ": unit-of-measure tag inference (dist/rdist), sibling agreement of argument checks and of the radius relation, dependency facts for kdtree, homogeneity-degree abstract interpretation of the Distance impls",
@@ -129,7 +129,7 @@ CLAIMED["C08"] = {
             "Not decided: OPTICS reachability values, border-point labels. "
             "Also decided: every distance in DBSCAN / OPTICS is computed with the configured metric (a concrete metric type inside the generic code is a violation); the OPTICS core distance is taken from the neighbour of rank min_points - 1 with no value-dependent adaptor (skip_while, filter, dedup) in between; forwarding impls of Distance forward the whole reduced-scale trio. "
             "(through the shared linfa-nn rules) the same admission clauses: reduced against reduced in the linear scan, no slack in the k-d tree's post-filter. "
-            "Cluster ids, queue marks and neighbour counts of DBSCAN / OPTICS are not narrowed to 32 bits or fewer (65536 clusters wrap a u16 mark); the address rule of linfa-nn applies to the queries made here. Point conservation of the ball-tree builder and the memory-layout discipline of linfa-nn are checked under this property too (DBSCAN / OPTICS inherit the index).",
+            "Cluster ids, queue marks and neighbour counts of DBSCAN / OPTICS are not narrowed to 32 bits or fewer (65536 clusters wrap a u16 mark); the address rule of linfa-nn applies to the queries made here. Point conservation of the ball-tree builder and the memory-layout discipline of linfa-nn are checked under this property too (DBSCAN / OPTICS inherit the index). No call of a workspace function in the crates of this property passes two like-typed arguments that are named after each other's parameter (names resolved through lets to the field or accessor they were read from).",
     "design_ref": "DESIGN.md section 4, C08",
     "note": "Trusted: rustc resolution/typeck, the fact dump.",
     "technique": _T + ": control dependence of frontier insertions on the canonical core condition, order taint of range-query results",
@@ -148,7 +148,7 @@ CLAIMED["C09"] = {
             "Not decided: cost monotonicity, bounding box, numeric inertia values. "
             "Also decided: `rows().enumerate().skip(1)` is a full scan when the incumbent starts from (0, rdistance(row 0, x)); counts taken through `&mut` method borrows are computed counts. "
             "No local declared before the restart loop of fit is assigned only inside the iteration loop (a `converged` flag that survives into the next restart); every arm of KMeansInit::run calls its own variant's routine; no per-block means averaged with one weight per block in the centroid updates. "
-            "The per-cluster counts of fit are indexed by membership values, never by the position of a run in the sorted memberships (an empty cluster shifts all later counts); the three assignment helpers have no return before their write loop. An early exit of the centroid scan is recognised also when index and distance are bound by one tuple `let`.",
+            "The per-cluster counts of fit are indexed by membership values, never by the position of a run in the sorted memberships (an empty cluster shifts all later counts); the three assignment helpers have no return before their write loop. An early exit of the centroid scan is recognised also when index and distance are bound by one tuple `let`. No call of a workspace function in the crates of this property passes two like-typed arguments that are named after each other's parameter (names resolved through lets to the field or accessor they were read from).",
     "design_ref": "DESIGN.md section 4, C09",
     "note": "Trusted: rustc resolution/typeck, the fact dump, Distance::rdistance being the reduced distance of the configured metric.",
     "technique": _T + ": call-graph agreement on one arg-min routine, guarded-state consistency and reaching-definition freshness of the result fields",
@@ -169,7 +169,7 @@ CLAIMED["C10"] = {
             "Not decided: positive definiteness, weights summing to one. "
             "Also decided: the mixing weights are column sums of the responsibilities divided by the sample count only while the responsibilities handed to the parameter estimation are the unscaled exp(log_resp) (or the divisor is their sum). "
             "compute_precisions_full takes no path without the matrix product unless it is keyed on the feature extent (axes 1, 2) of the factor array; both factors of the covariance product are centred. "
-            "predict_inplace overwrites its target in every implementation including macro-generated ones; block offsets are nominal.",
+            "predict_inplace overwrites its target in every implementation including macro-generated ones; block offsets are nominal. The writer of precisions_chol is recognised when factorisation and triangular solve are two statements. No call of a workspace function in the crates of this property passes two like-typed arguments that are named after each other's parameter (names resolved through lets to the field or accessor they were read from).",
     "design_ref": "DESIGN.md section 4, C10",
     "note": "Trusted: rustc resolution/typeck, the fact dump.",
     "technique": _T + ": ordering/dominance of refresh over store, error-propagation dataflow, shifted log-sum-exp chain rule",
@@ -193,7 +193,7 @@ CLAIMED["C12"] = {
             "Not decided: stationarity of the "
             "returned point beyond these necessary conditions, numeric range of probabilities. "
             "The chain-rule check reads through same-crate helpers (a clamp shared 'for consistency' between link_derivative and inverse_derivative is a clamp in inverse_derivative only); every non-error path of the two logistic fits goes through the solver on the model's own problem. "
-            "The gradient tolerance handed to L-BFGS is the configured one, not multiplied or divided by a size of the data; the running maximum behind the softmax / log-sum-exp shift starts from -inf or an element, not from a finite constant; a builder method does not write another setting conditionally (`get_or_insert` of the link inside `power`). A branch taken under `y == 0` in the GLM distribution code yields what the general branch tends to at y = 0 (terms with a factor y vanish; decided on the rational normal form of both branches); raw memory-order buffers are followed through `Cow::Borrowed` / `Some` / `Either` wrappers and the values of match arms. In every arm of TweedieDistribution::unit_deviance (Normal, Poisson, Gamma, the two general arms) the symbolic derivative with respect to the mean - rational normal form with ln u and mu^p as atoms, mu^(a + b p) = mu^a (mu^p)^b, chain rule - is -2 (y - mu) / unit_variance(mu), and unit_deviance_derivative computes exactly that: cost and gradient of the GLM are one function (the factor-2 defect repaired in ee80fac is now a rule: its revert is a catalogue mutant).",
+            "The gradient tolerance handed to L-BFGS is the configured one, not multiplied or divided by a size of the data; the running maximum behind the softmax / log-sum-exp shift starts from -inf or an element, not from a finite constant; a builder method does not write another setting conditionally (`get_or_insert` of the link inside `power`). A branch taken under `y == 0` in the GLM distribution code yields what the general branch tends to at y = 0 (terms with a factor y vanish; decided on the rational normal form of both branches); raw memory-order buffers are followed through `Cow::Borrowed` / `Some` / `Either` wrappers and the values of match arms. In every arm of TweedieDistribution::unit_deviance (Normal, Poisson, Gamma, the two general arms) the symbolic derivative with respect to the mean - rational normal form with ln u and mu^p as atoms, mu^(a + b p) = mu^a (mu^p)^b, chain rule - is -2 (y - mu) / unit_variance(mu), and unit_deviance_derivative computes exactly that: cost and gradient of the GLM are one function (the factor-2 defect repaired in ee80fac is now a rule: its revert is a catalogue mutant). TweedieProblem::cost and ::gradient cut the parameter vector (and the gradient buffer) with one and the same range (intercept first, coefficients after it). No call of a workspace function in the crates of this property passes two like-typed arguments that are named after each other's parameter (names resolved through lets to the field or accessor they were read from).",
     "design_ref": "DESIGN.md section 4, C12",
     "note": "Trusted: rustc resolution/typeck, the fact dump; soft-max is monotone per row.",
     "technique": _T + ": dominance of validation over the optimiser call, shifted log-sum-exp chain rule, common-producer check for decision and probabilities, sibling agreement of dispatcher arms, per-path influence (data-dependence) analysis",
@@ -212,7 +212,7 @@ CLAIMED["C16"] = {
             "Not decided: achieved means, variances, covariances. "
             "Also decided: `transform` of a fitted scaler / whitener takes no statistic across the samples of the matrix it transforms (column means, sums .. of the input). "
             "`transform` hands the input back untouched for an empty matrix only; no mean of per-block means with one weight per block in the fit statistics. "
-            "Every arm of the norm dispatcher calls norm_l1 / norm_l2 / norm_max or reduces absolute values; every non-optional field a method of a serialisable scaler reads takes part in the serialised form (no `serde(skip)` on a derived flag). NormScaler leaves a row unscaled only under an *exact* comparison of its norm with zero; no singular value / eigenvalue (or its inverse) is clamped by an absolute constant in Whitener::fit (both floors of the pinned tree were absolute: repaired in dfbc6f2, now relative to the largest value). Formula level (rules/formula.py): for a non-constant column the fitted offset and scale, read as formulas of the column's mean / standard deviation / minimum / maximum / largest absolute value, composed with the element map of transform give the documented maps - min-max sends the column minimum to the lower and the maximum to the upper end of the requested range (both ends attained), max-abs is x / maxabs, standard scaling is (x - mean) / std.",
+            "Every arm of the norm dispatcher calls norm_l1 / norm_l2 / norm_max or reduces absolute values; every non-optional field a method of a serialisable scaler reads takes part in the serialised form (no `serde(skip)` on a derived flag). NormScaler leaves a row unscaled only under an *exact* comparison of its norm with zero; no singular value / eigenvalue (or its inverse) is clamped by an absolute constant in Whitener::fit (both floors of the pinned tree were absolute: repaired in dfbc6f2, now relative to the largest value). Formula level (rules/formula.py): for a non-constant column the fitted offset and scale, read as formulas of the column's mean / standard deviation / minimum / maximum / largest absolute value, composed with the element map of transform give the documented maps - min-max sends the column minimum to the lower and the maximum to the upper end of the requested range (both ends attained), max-abs is x / maxabs, standard scaling is (x - mean) / std. No call of a workspace function in the crates of this property passes two like-typed arguments that are named after each other's parameter (names resolved through lets to the field or accessor they were read from).",
     "design_ref": "DESIGN.md section 4, C16",
     "note": "Trusted: rustc resolution/typeck, the fact dump. Divisions by singular values in the whiteners are outside the rule (the property claims whitening on full-rank data only).",
     "technique": _T + ": provenance of the output dataset's containers, dominance of the empty-input guard, zero-guard contradiction rule on data-derived divisors",
@@ -230,7 +230,7 @@ CLAIMED["C18"] = {
             "Not decided: orthonormality, ordering, spectral optimality, whitening covariance. "
             "Also decided: the whitening scale is computed from the row count of the decomposed matrix, not from the sample weights; no method of Pca subtracts the mean from data it then hands to predict / transform (which centre themselves). "
             "No model is returned from Pca::fit before the whitening branch. "
-            "The numerator of explained_variance_ratio is a squared singular value; counts are not narrowed. The singular values that scale the whitened embedding are the very binding stored in the model; the cut of the singular values is not an absolute constant (it was 1e-8: repaired in d276c71).",
+            "The numerator of explained_variance_ratio is a squared singular value; counts are not narrowed. The singular values that scale the whitened embedding are the very binding stored in the model; the cut of the singular values is not an absolute constant (it was 1e-8: repaired in d276c71). The two calling forms of the projection (predict_inplace, Transformer::transform) reach reads of the same fields of the model. No call of a workspace function in the crates of this property passes two like-typed arguments that are named after each other's parameter (names resolved through lets to the field or accessor they were read from).",
     "design_ref": "DESIGN.md section 4, C18",
     "note": "Trusted: rustc resolution/typeck, the fact dump; the feature=blas branch cannot be built offline and is not analysed.",
     "technique": _T + ": dominance of input guards over the decomposition, dataflow of the variance divisor to the recorded sample count, symbolic normal form of the transform/inverse composition",
@@ -251,7 +251,7 @@ CLAIMED["C13"] = {
             "Not decided: KKT conditions, rho, objective values. "
             "Also decided: in the Permutable impls a field left alone by swap_indices (targets, the kernel, its diagonal) is read through kernel_indices, a field it permutes (signs) is read by position. "
             "The branch of solve() that folds the support vectors into one hyperplane is taken exactly under is_linear(); positions in the Permutable impls are the trait methods' own parameters and what ranges over 0..length (an index of unknown space is undecided, not a violation). "
-            "What is iterated out of the position->sample map (`active_set.iter()`) is a sample index: a position-indexed field read with it is reported like `targets[active_set[i]]`; in tiled loops the end of a tile is computed from that tile's own start; macro-generated predict_inplace bodies overwrite their target. A starting point that is laid out by a truncated `nu * l` also depends on nu itself: the fractional remainder is placed on a variable, not dropped (one-class SVM).",
+            "What is iterated out of the position->sample map (`active_set.iter()`) is a sample index: a position-indexed field read with it is reported like `targets[active_set[i]]`; in tiled loops the end of a tile is computed from that tile's own start; macro-generated predict_inplace bodies overwrite their target. A starting point that is laid out by a truncated `nu * l` also depends on nu itself: the fractional remainder is placed on a variable, not dropped (one-class SVM). No call of a workspace function in the crates of this property passes two like-typed arguments that are named after each other's parameter (names resolved through lets to the field or accessor they were read from).",
     "design_ref": "DESIGN.md section 4, C13",
     "note": "Trusted: rustc resolution/typeck, the fact dump; the index-space tags are inferred from the code's own swap(); sibling rules were confirmed against the reference SMO algorithm.",
     "technique": _T + ": index-space tag inference, stale-loop-bound detection, sibling agreement (deviant-behaviour) rules on SolverState",
@@ -272,7 +272,7 @@ CLAIMED["C14"] = {
             "Not decided: impurity arithmetic, leaf majorities, importances. "
             "Also decided: `check` hands the checked parameter set on unchanged (c04's R-C04-same, so that the limits that reach the fit are the ones the caller set); the split threshold between two neighbouring feature values is strictly below the upper one (R-C14-midpoint; a genuine defect of the pinned tree, repaired). "
             "relative_impurity_decrease returns no unnormalised values under a positive threshold on their sum. "
-            "The two side-weight accumulators that the sweep moves in step are declared in the same block (both reset per feature); make_prediction's walk is not a counted loop with a constant bound.",
+            "The two side-weight accumulators that the sweep moves in step are declared in the same block (both reset per feature); make_prediction's walk is not a counted loop with a constant bound. No call of a workspace function in the crates of this property passes two like-typed arguments that are named after each other's parameter (names resolved through lets to the field or accessor they were read from).",
     "design_ref": "DESIGN.md section 4, C14",
     "note": "Trusted: rustc resolution/typeck, the fact dump.",
     "technique": _T + ": sibling agreement of the fit-time and predict-time routing relation, dominance of limit tests over split creation, dependency analysis of weight accumulators, raw-buffer who-may-call rule",
@@ -292,7 +292,7 @@ CLAIMED["C19"] = {
             "For every enum, the variant index the generated Serialize writes equals the index under which the generated identifier visitor restores the same variant (a skipped variant in the middle shifts one side only); every public tokenising method of the serialisable *checked* vectoriser parameters tests the tokenizer guard first; hand-written Clone impls copy every field (the guard included). "
             "No array with a known non-standard memory layout (stack / concatenate along an axis > 0, reversed_axes / permuted_axes, a transposed view copied with to_owned, an `.f()` shape, or the result of a workspace function returning one of these) is stored in a field of a serialisable type: ndarray restores every array in standard layout, and layout-dependent summation orders would differ after the round trip. "
             "Not decided: bit-level behaviour of third-party serialisers. "
-            "Also decided: no hand-written Deserialize impl reads a borrowed `&str` / `&[u8]` (restoring from a reader or from escaped text would fail); the producer of a serialised `Result` field lets no error variant escape that serde skips (a `?` on a Result whose error is the payload type of a skipped variant).",
+            "Also decided: no hand-written Deserialize impl reads a borrowed `&str` / `&[u8]` (restoring from a reader or from escaped text would fail); the producer of a serialised `Result` field lets no error variant escape that serde skips (a `?` on a Result whose error is the payload type of a skipped variant). No call of a workspace function in the crates of this property passes two like-typed arguments that are named after each other's parameter (names resolved through lets to the field or accessor they were read from).",
     "design_ref": "DESIGN.md section 4, C19",
     "note": "Trusted: serde_derive's expansion (the pinned version's output is what is analysed), serde impls of std/ndarray/sprs/rand_xoshiro/serde_regex, the format crate.",
     "technique": _T + " on the serde configuration: structure preservation read off the expanded derive impls, type closure, compile-only witness crate",
@@ -309,7 +309,7 @@ CLAIMED["C20"] = {
             "Not decided: floating-point identity across machines, third-party internals. "
             "Also decided: closure parameters lent from outer state (`Zip::from(&mut best).and(&mut *y).for_each(|b, t, ..| ..)` inside a loop over a hash map) are writes to outer state; `next()` under a test that the container has exactly one element, and incumbents replaced under a local closure that decides every pair of entries by value and then by key, are order-insensitive; named constants are literal seeds. "
             "KMeansInit::run hands no other initialiser's arm over to k-means|| (which is outside the claim); `select_nth_unstable(k)` + `truncate(k)` under a total order is an order-insensitive use of a hash iteration. "
-            "FastICA's unseeded generator is reached on the no-seed side of a test of the Option, not under a particular seed *value* (`0 => entropy`); the compiled-tokeniser rule of C17 is part of 'same hyperparameters, same output'.",
+            "FastICA's unseeded generator is reached on the no-seed side of a test of the Option, not under a particular seed *value* (`0 => entropy`); the compiled-tokeniser rule of C17 is part of 'same hyperparameters, same output'. No call of a workspace function in the crates of this property passes two like-typed arguments that are named after each other's parameter (names resolved through lets to the field or accessor they were read from).",
     "design_ref": "DESIGN.md section 4, C20",
     "note": "Trusted: rustc resolution/typeck, the fact dump; third-party crates draw entropy only through the listed APIs. Allow-list entries are single symbols with a reason (rules/c20.py).",
     "technique": _T + ": order/entropy/schedule taint classification of every unordered source to its consumer",
@@ -327,7 +327,7 @@ CLAIMED["C05"] = {
             "Not decided: the numerical definitions themselves - MCC, F-beta, ROC / AUC and its treatment of ties and of the first threshold, log-loss, the regression formulas beyond their degrees, silhouette, Pearson, permutation invariance. "
             "Also decided: the clip bounds of log_loss, evaluated exactly as f32 / f64 constants, lie strictly inside (0, 1) (`1 - MIN_POSITIVE` is 1.0); the class list a confusion matrix is laid out by is sorted where it is used or where it is made (nothing appended after the last sort); no ordering compares floats through their bit patterns. "
             "Every path of ConfusionMatrix::f1_score returns self.f_score(1); combined_labels drains an iterator that it consumes conditionally (next_if); the covariance behind pearson_correlation is a product of centred data, not a difference of raw moments. "
-            "The position of pair (i, j) in the packed correlation triangle is evaluated over the loop nest as written for 4 and 5 features: it counts 0, 1, 2, .. in visiting order (the column-major closed form agrees up to 3 features); counts are not narrowed below 64 bits. Formula level (rules/formula.py): max / mean absolute / mean squared / squared-log / percentage error, R2 and explained variance, F-beta, the macro averages of precision and recall and the log-loss are read from the typed HIR into a rational normal form - element-wise atoms, sums expanded by linearity, |u| / ln u / clip u as uninterpreted atoms, literal regularisers of at most 1e-6 set to zero - and compared with the textbook definition built in the same algebra (by cross-multiplication, and by the value of both normal forms at three fixed rational points with uninterpreted functions hashed on their argument's value); multi-target scores that do not delegate are read column-wise (a whole-matrix mean in place of a column mean is another function). explained_variance of the pinned tree is recorded under a key that carries a fingerprint of today's formula, so any other formula is a new violation. A trapezoid (or any sum / difference) does not combine a loop-carried copy with the element it was just overwritten with.",
+            "The position of pair (i, j) in the packed correlation triangle is evaluated over the loop nest as written for 4 and 5 features: it counts 0, 1, 2, .. in visiting order (the column-major closed form agrees up to 3 features); counts are not narrowed below 64 bits. Formula level (rules/formula.py): max / mean absolute / mean squared / squared-log / percentage error, R2 and explained variance, F-beta, the macro averages of precision and recall and the log-loss are read from the typed HIR into a rational normal form - element-wise atoms, sums expanded by linearity, |u| / ln u / clip u as uninterpreted atoms, literal regularisers of at most 1e-6 set to zero - and compared with the textbook definition built in the same algebra (by cross-multiplication, and by the value of both normal forms at three fixed rational points with uninterpreted functions hashed on their argument's value); multi-target scores that do not delegate are read column-wise (a whole-matrix mean in place of a column mean is another function). explained_variance of the pinned tree is recorded under a key that carries a fingerprint of today's formula, so any other formula is a new violation. A trapezoid (or any sum / difference) does not combine a loop-carried copy with the element it was just overwritten with. F-beta is also read with precision and recall inlined down to the cells of the 2x2 matrix (when they arrive through a helper) and compared with the formula over the public precision() / recall(); named constants of the crate are looked through in the clip bounds. No call of a workspace function in the crates of this property passes two like-typed arguments that are named after each other's parameter (names resolved through lets to the field or accessor they were read from).",
     "design_ref": "DESIGN.md section 4, C05",
     "note": "Trusted: rustc resolution/typeck, the fact dump; in ToConfusionMatrix::confusion_matrix(&self, ground_truth) the receiver is the prediction. Claimed late in the build (section 5).",
     "technique": _T + ": delegation-name agreement, homogeneity-degree (dimensional) abstract interpretation of the metric formulas, axis-role agreement between the construction of the confusion matrix and its consumers",
@@ -349,7 +349,7 @@ CLAIMED["C06"] = {
             "Not decided: numerical equality of entries, symmetry up to rounding, positive semidefiniteness, which points the index returns, agreement of dense and sparse products and sums, the linkage algorithm itself (kodama), ties. "
             "Also decided: no bisection (`partition_point`, `binary_search_by`) over the merge steps' dissimilarities (not monotone for centroid / median linkage); a hand-computed offset into the condensed triangle does not divide one factor of r(2n - r - 1) before the product is formed. "
             "The upper-triangle relation col > row is also read off explicit loops (`for (i, row) in outer_iterator().enumerate()`); no labels are returned before the linkage is computed (a threshold above every pairwise dissimilarity does not bound Ward's merge heights). "
-            "The cap applied to the transformed dissimilarities is the transform of the floor applied before it (constant-branch evaluation of both). The stop tests may be written as one `if let Criterion::X(v) = self.stopping { if <comparison> { break } }` per criterion: each is judged by its comparison and by its position before the merge. A clamp of the -ln transform written as an outer branch (`if x >= 1 { 0 } else { .. }`) is a clamp.",
+            "The cap applied to the transformed dissimilarities is the transform of the floor applied before it (constant-branch evaluation of both). The stop tests may be written as one `if let Criterion::X(v) = self.stopping { if <comparison> { break } }` per criterion: each is judged by its comparison and by its position before the merge. A clamp of the -ln transform written as an outer branch (`if x >= 1 { 0 } else { .. }`) is a clamp. The cluster count may be kept in a counter that every merge decrements: the count test stands before the decrement. No call of a workspace function in the crates of this property passes two like-typed arguments that are named after each other's parameter (names resolved through lets to the field or accessor they were read from).",
     "design_ref": "DESIGN.md section 4, C06",
     "note": "Trusted: rustc resolution/typeck, the fact dump; kodama::linkage's documented step numbering; sprs::CsMatBase::new_from_unsorted's argument order. Claimed late in the build (section 5).",
     "technique": _T + ": index / operand agreement of the matrix fill, sign and operand analysis of the kernel arms, buffer-pairing and once-per-row analysis of the CSR construction, canonical relation and statement order of the stop test, remove / insert pairing of the merge, name agreement of the dispatchers",
@@ -368,7 +368,7 @@ CLAIMED["C11"] = {
             "Not decided: optimality itself (KKT conditions, orthogonality of the OLS residual), non-negativity of the gap, convergence within the iteration budget. "
             "Also decided (R-C11-gap, R-C11-blocksoft): floats made from a matrix's `.len()` are element counts, not sample counts; the multi-task dual norm is a maximum over row norms (norm_max on the matrix itself is a violation); the residual is rescaled into the dual feasible set whenever its dual norm exceeds l1_reg (no conjunct narrowing the condition); block_soft_thresholding returns zero on the boundary norm == threshold, so that 0 / 0 is never formed (a genuine defect of the pinned tree, repaired). "
             "A filter on the features of a sweep may only drop empty columns (screening by the correlation with the target freezes features); the l2,1 norm of the multi-task gap takes the square root per row, before the sum over rows. "
-            "A computation route that only inputs beyond a constant size reach (normal equations for tall problems) is reported as UNDECIDED, never as a violation.",
+            "A computation route that only inputs beyond a constant size reach (normal equations for tall problems) is reported as UNDECIDED, never as a violation. The dual norm of the multi-task penalty runs over the rows of X^T R (one per feature), not over its columns. No call of a workspace function in the crates of this property passes two like-typed arguments that are named after each other's parameter (names resolved through lets to the field or accessor they were read from).",
     "design_ref": "DESIGN.md section 4, C11",
     "note": "Trusted: rustc resolution/typeck, the fact dump. Claimed late in the build (section 5).",
     "technique": _T + ": ingredient (data-dependence) analysis of the published intercept, role agreement of the two penalty terms across the descents and the duality gaps, canonical form of the soft threshold and of the stopping test, branch structure of the OLS fit",
@@ -387,7 +387,7 @@ CLAIMED["C15"] = {
             "The cluster counts that KMeans::fit stores are the counted memberships, unadjusted (fit_with continues a running mean from them); the variance boost is subtracted either from every class of the carried model or not at all - never per class of the current batch; a struct literal that copies from a struct with a like-named field takes the like-named field (Ftrl::new: l1 from l1). "
             "Not decided: the statistics themselves (pooled mean / variance algebra, log-probabilities, the learning-rate formula), equality of batch and incremental results as numbers, posterior arg-max (ties are decided under C20). "
             "Also decided: the per-class update of naive Bayes fit_with walks a duplicate-free collection of the batch's classes (labels(), a set, or sort + dedup); the shift of the mini-batch k-means centroids and the tolerance are compared in one space (a reduced distance against dist_to_rdist(tolerance), a distance against the tolerance itself). "
-            "FTRL fit_with applies the update on every non-error path; GaussianNb's pooled variance is not a second moment minus the squared pooled mean. A variance-pooling helper that is handed the boost removes it from the old variance before pooling: as a rational function of the stored variance v and the boost e, its result satisfies g(v, e) = g(v - e, 0) (formula reader with substitution).",
+            "FTRL fit_with applies the update on every non-error path; GaussianNb's pooled variance is not a second moment minus the squared pooled mean. A variance-pooling helper that is handed the boost removes it from the old variance before pooling: as a rational function of the stored variance v and the boost e, its result satisfies g(v, e) = g(v - e, 0) (formula reader with substitution). No call of a workspace function in the crates of this property passes two like-typed arguments that are named after each other's parameter (names resolved through lets to the field or accessor they were read from).",
     "design_ref": "DESIGN.md section 4, C15",
     "note": "Trusted: rustc resolution/typeck, the fact dump. Claimed late in the build (section 5 explains what changed the earlier not-applicable verdict).",
     "technique": _T + ": delegation of batch to incremental fitting, accumulate-vs-replace of carried state, pairing of the epsilon subtraction and addition, read-before-write snapshot of the FTRL weights, canonical form of the sparsity and convergence tests",
@@ -408,7 +408,7 @@ CLAIMED["C17"] = {
             "Not decided: the recount itself - what the regex or tokenizer function matches, the float-to-count arithmetic of the frequency window, the three idf formulas, which entries a feature cap keeps (the sort key's reproducibility is decided under C20), the order of the vocabulary. "
             "Also decided: stop words enter the fit-side and the transform-side tokenisation alike (a stop-word filter before the n-grams on one side only is a pipeline difference); an Iterator impl of the n-gram walk that overrides a provided method without going through next() is left undecided. "
             "The lookup loops of analyze_document have no written-out early exit; the relative document frequency is the quotient count / n, not a product with a precomputed reciprocal. "
-            "The compiled tokeniser follows the expression also through borrow-guard aliases; counts are not narrowed below 64 bits. No admission test (filter / filter_map / retain) is applied after the feature cap (take / truncate) in the vocabulary filter; raw memory-order buffers of the document arrays are not consumed in order (also through a private helper whose callers push rows in a for loop) without a layout test.",
+            "The compiled tokeniser follows the expression also through borrow-guard aliases; counts are not narrowed below 64 bits. No admission test (filter / filter_map / retain) is applied after the feature cap (take / truncate) in the vocabulary filter; raw memory-order buffers of the document arrays are not consumed in order (also through a private helper whose callers push rows in a for loop) without a layout test. No call of a workspace function in the crates of this property passes two like-typed arguments that are named after each other's parameter (names resolved through lets to the field or accessor they were read from).",
     "design_ref": "DESIGN.md section 4, C17",
     "note": "Trusted: rustc resolution/typeck, the fact dump; HashSet iteration yields each element once; sprs append / iter_mut pair a value with its column index. Claimed late in the build (section 5 explains what changed the earlier not-applicable verdict).",
     "technique": _T + ": sibling agreement of the fit-time and transform-time tokenisation pipelines, tuple-position provenance of map-value components, enumerate-before-filter, index provenance of multipliers",
